@@ -132,17 +132,23 @@ func init() {
 					}
 				}
 			}
-			// the main control connection and earlier connections must keep working whatever the schedule
-			if v, ok := x.Data["mainfail"]; ok {
-				x.Fail("L", "main control connection broken: %v", v)
-			}
-			if v, ok := x.Data["earlierfail"]; ok {
-				x.Fail("L", "%v", v)
-			}
-			select {
-			case <-pr.srv.VDone():
-				x.Fail("L", "the plugin's main gRPC server stopped serving during the session")
-			default:
+			// The main control connection and earlier connections must keep working. Like every
+			// "succeeds" verdict this is asserted only when no TIME deviation was taken: stalling a
+			// goroutine for 5 virtual seconds legitimately makes go-plugin's own timeouts fire
+			// (e.g. the muxer's 5 s wait for its session in session()), which is the scheduler's
+			// doing, not a defect (DESIGN §2.6).
+			if x.TimeDevs == 0 {
+				if v, ok := x.Data["mainfail"]; ok {
+					x.Fail("L", "main control connection broken: %v", v)
+				}
+				if v, ok := x.Data["earlierfail"]; ok {
+					x.Fail("L", "%v", v)
+				}
+				select {
+				case <-pr.srv.VDone():
+					x.Fail("L", "the plugin's main gRPC server stopped serving during the session")
+				default:
+				}
 			}
 			for _, e := range x.EndBlocked {
 				x.Fail("L", "blocked forever: %s", e)
